@@ -5178,6 +5178,24 @@ where
             return Ok(0);
         };
 
+        // Transactional guard: the post-removal flip repair (and the fast path itself) can fail
+        // after the vertex is already gone. Snapshot so an `Err` leaves the triangulation unchanged.
+        let tds_snapshot = self.tri.tds.clone();
+        let removal_result = self.remove_vertex_and_repair(vertex, vertex_key);
+        if removal_result.is_err() {
+            self.tri.tds = tds_snapshot;
+        }
+        removal_result
+    }
+
+    fn remove_vertex_and_repair(
+        &mut self,
+        vertex: &Vertex<K::Scalar, U, D>,
+        vertex_key: VertexKey,
+    ) -> Result<usize, TriangulationValidationError>
+    where
+        K::Scalar: ScalarSummable,
+    {
         // Fast path: inverse k=1 flip when the vertex star is a simplex.
         let mut seed_cells: Option<CellKeyBuffer> = None;
         let cells_removed = match apply_bistellar_flip_k1_inverse(
